@@ -31,7 +31,7 @@ INVARIANT Export
 CHECK_DEADLOCK FALSE
 '''
 A7 = '"NTD", "NTS", "EXD", "EXS", "S1", "E1", "LK"'
-A10 = A7 + ', "TN", "TERM", "TPID", "THD"'
+A10 = A7 + ', "TN", "TERM", "TPID", "THD", "NTDo"'
 
 
 def mk(world, tpl, t):
@@ -39,6 +39,10 @@ def mk(world, tpl, t):
     w = world
     if tpl == 'NTD':
         return w.ntd(t, 10 + t, 100 + t)
+    if tpl == 'NTDo':
+        ev = w.ntd(t, 2 if t == 1 else 1, 110 + t)
+        ev.words = (ev.words[0], ev.words[1], w.rnd.choice([1, 1, 0, 7]), ev.words[3])     # is_exec_copy mostly set
+        return ev
     if tpl == 'NTS':
         return w.nts(t, {1: 'one', 2: 'two'}.get(t, 'three'))
     if tpl == 'EXD':
@@ -152,7 +156,7 @@ def run(ctx):
     ctx.add_tlc(r, counts=False)
     behs = [json.loads(t[1]) for t in r.tuples('BEH')]
     if ctx.quick:        # every schedule of total length <= 3, every 4th of the longer ones
-        behs = [b for i, b in enumerate(behs) if len(b['sched']) <= 3 or i % 4 == 0]
+        behs = [b for i, b in enumerate(behs) if len(b['sched']) <= 3 or i % 8 == 0]
     tuples, info = simulate_behaviours('Interleave_MBT', MBT_CFG % ('1, 2, 3', 2, A7), ctx.workdir,
                                        2000 if ctx.quick else 40000, name='il_sim', depth=14, seed=ctx.seed + 5)
     ctx.tlc_runs.append(info)
